@@ -94,7 +94,7 @@ impl Check for C08 {
         std::time::Duration::from_secs(20)
     }
     fn rule(&self) -> String {
-        "choice sequence -> image (multi-frame Modular with blending / crops / patches / reference-only frames weighted up; also single-frame Modular and VarDCT; optionally one corrupted section byte) x fault index k over the tracked allocations of read + render of every keyframe (every k when the clean run makes <= 48 tracked allocations in quick / 400 in thorough = exhaustive for that image, else a sample of 24 biased to the render phase) x generated program of later calls (render same/other keyframes, set a region inside the image or back to full, lift the fault, arm it again n allocations later) x pool none (mostly) or rayon(2). Oracle: no call panics or aborts, every call returns (20 s deadline per case in a worker process, confirmed alone at 10x); every render that returns Ok - while the fault is armed, after it is lifted, after a region change - is bit-identical to the render of the same keyframe and region by a fresh decode that never failed. An evaluation = one image with all its fault points. Non-trivial: some fault fired inside a render call of an image with >= 2 frames and a later render call returned Ok; distinct by FNV of the stream.".into()
+        "choice sequence -> image (multi-frame Modular with blending / crops / patches / reference-only frames weighted up; also single-frame Modular and VarDCT; optionally one corrupted section byte) x fault index k over the tracked allocations of read + render of every keyframe (every k when the clean run makes <= 48 tracked allocations in quick / 400 in thorough = exhaustive for that image, else a sample of 24 biased to the render phase) (a quarter of the images instead take the fault inside a render_loading_frame() call made half-way through an incremental load) x generated program of later calls (render same/other keyframes, set a region inside the image or back to full, lift the fault, arm it again n allocations later) x pool none (mostly) or rayon(2). Oracle: no call panics or aborts, every call returns (20 s deadline per case in a worker process, confirmed alone at 10x); every render that returns Ok - while the fault is armed, after it is lifted, after a region change - is bit-identical to the render of the same keyframe and region by a fresh decode that never failed. An evaluation = one image with all its fault points. Non-trivial: some fault fired inside a render call of an image with >= 2 frames and a later render call returned Ok; distinct by FNV of the stream.".into()
     }
     fn assumptions(&self) -> Vec<String> {
         vec![
@@ -116,6 +116,7 @@ impl Check for C08 {
         ao.vardct.multi_lf_group = 0;
         let c = gen_any_case(&mut src, &ao);
         let sections = c.layouts.last().map(|l| l.sections.clone()).unwrap_or_default();
+        let header_len = c.header_len;
         let (mut bytes, mut classes, desc) = (c.bytes, c.classes, c.desc);
         classes.retain(|c| c.starts_with("frames:") || c == "patches" || c.starts_with("image:") || c == "reference-only" || c == "crop" || c.starts_with("blend:"));
         if sections.len() > 1 && csrc.chance(40) {
@@ -205,17 +206,39 @@ impl Check for C08 {
         }
         let mut baseline = Baseline { bytes: &bytes, threads, cache: HashMap::new() };
         let (mut fired_in_render, mut later_ok, mut recovered, mut sticky) = (0usize, 0usize, 0usize, 0usize);
+        // a quarter of the cases load the image through the incremental API and take the fault inside a
+        // render_loading_frame() call made half-way (the fault is lifted right after it)
+        let tail = src.tail_fork_bytes(8);
+        let progressive = tail[4] % 4 == 0 && bytes.len() > header_len + 2;
+        let cut = header_len + 1 + ((tail[5] as usize | (tail[6] as usize) << 8) * (bytes.len().saturating_sub(header_len + 1)) >> 16);
+        if progressive {
+            classes.push("fault-in-loading-render".into());
+        }
         for &k in &ks {
             let t = AllocTracker::with_limit(1 << 30);
-            t.verif_set_fail_from(k);
-            let mut image = match JxlImage::builder().pool(pool(threads)).alloc_tracker(t.clone()).read(std::io::Cursor::new(&bytes[..])) {
-                Ok(i) => i,
-                Err(_) => continue, // fault during load: no image to misuse
-            };
-            let mut region: Region = None;
             let mut failed_render = false;
             let mut lifted = false;
             let mut fail_from = k;
+            let mut image = if progressive {
+                let (t2, t3) = (t.clone(), t.clone());
+                let builder = JxlImage::builder().pool(pool(threads)).alloc_tracker(t.clone());
+                match crate::util::open_with_loading_render(&bytes, cut, builder, move || t2.verif_set_fail_from(t2.verif_alloc_calls() + k % 32), move || t3.verif_set_fail_from(usize::MAX)) {
+                    Ok(i) => {
+                        failed_render = true;
+                        lifted = true;
+                        fail_from = usize::MAX;
+                        i
+                    }
+                    Err(_) => continue,
+                }
+            } else {
+                t.verif_set_fail_from(k);
+                match JxlImage::builder().pool(pool(threads)).alloc_tracker(t.clone()).read(std::io::Cursor::new(&bytes[..])) {
+                    Ok(i) => i,
+                    Err(_) => continue, // fault during load: no image to misuse
+                }
+            };
+            let mut region: Region = None;
             // first: the renders the clean run made, in order (this is where index k falls)
             let mut program: Vec<Op> = (0..nk).map(Op::Render).collect();
             program.extend(ops.iter().cloned());
